@@ -740,7 +740,7 @@ sfd_tran_listener_init(void *arg, nng_url *url, nni_listener *nlistener)
 
 	if ((rv = nng_stream_listener_alloc_url(&ep->listener, url)) !=
 	    NNG_OK) {
-		sfd_tran_ep_fini(ep);
+		// (the core calls our fini for a failed init)
 		return (rv);
 	}
 
